@@ -150,7 +150,7 @@ PROFILES = {
         "max_samples": 8,
     },
     "c03": {"dim2d_p": 0.2, "merge_p": 0.4, "dup_labels_p": 0.5, "narrow_crit_p": 0.6, "fp_gt_p": 0.2, "tasks": {"detection": 4, "tracking": 3, "fp_validation": 3}},
-    "c16": {"obj_tilt_p": 0.2, "far_p": 0.15, "raw_p": 0.3, "sibling_p": 0.5, "ego_tilt_p": 0.5, "max_samples": 24, "max_actors": 16, "enable_p": 0.1, "tasks": {"detection": 3, "tracking": 3, "fp_validation": 1}},
+    "c16": {"stamp_lag_p": 0.4, "obj_tilt_p": 0.2, "far_p": 0.15, "raw_p": 0.3, "sibling_p": 0.5, "ego_tilt_p": 0.5, "max_samples": 24, "max_actors": 16, "enable_p": 0.1, "tasks": {"detection": 3, "tracking": 3, "fp_validation": 1}},
     "c19": {"sibling_p": 0.35, "analyze_p": 1.0, "force": ["analyze"], "fp_gt_p": 0.15, "max_samples": 10,
             "tasks": {"detection": 5, "tracking": 3, "fp_validation": 2}},
     "c01": {"dim2d_p": 0.2, "wide_scales": [250.0], "merge_p": 0.45, "dup_labels_p": 0.5, "radii_list_p": 0.55, "force": ["ghost", "dup_detection"], "contested_p": 0.7, "tasks": {"detection": 5, "tracking": 2, "fp_validation": 3},
@@ -425,6 +425,16 @@ def _make_storage(rng, prof):
     if st["extra_sensors"] and rng.random() < 0.5:
         # as in real recordings every sensor's record has its own ego pose (slightly different capture time)
         st["sensor_ego_offset"] = [_r(rng.uniform(0.1, 0.6)), _r(rng.uniform(-0.2, 0.2)), _r(rng.uniform(-0.02, 0.02), 4)]
+    if prof.get("stamp_lag_p"):
+        # sensor records (and their ego poses) stamped a little after the sample they belong to, as when a sweep is stamped at
+        # the end of its rotation: the frame's time is the sample's.  Drawn from a fork of the stream so that every other
+        # decision of the plan is the one it was before this dimension existed.
+        fork = random.Random()
+        fork.setstate(rng.getstate())
+        if fork.random() < prof["stamp_lag_p"]:
+            st["stamp_lag_us"] = [fork.choice([0, fork.randrange(1, 2000), fork.randrange(2000, 60000)]) for _ in range(8)]
+            if not any(st["stamp_lag_us"]):
+                st["stamp_lag_us"][fork.randrange(8)] = fork.randrange(2000, 60000)
     return st
 
 
